@@ -601,3 +601,47 @@ Proof.
   - exists b. now apply b58_encode_decode.
   - exists b. destruct (b58_decode_encode b) as (s' & E & D). congruence.
 Qed.
+
+(* ---- statements as used by Props/C12.v ---------------------------------------------------------- *)
+Lemma enc_dec_k_alphabet s : (length s <= 11)%nat -> Forall (fun c => In c alphabet) s ->
+  exists v, dec_k s = Some v /\ v < 58 ^ lenN s /\ enc_k (length s) v = s.
+Proof.
+  intros Hl Hs. destruct (dec_k_total s Hl Hs) as [v Hv]. exists v. split; [assumption|].
+  destruct (enc_dec_k s v Hl Hv). auto.
+Qed.
+
+Lemma dec_k_outside_alphabet s : (length s <= 11)%nat -> ~ Forall (fun c => In c alphabet) s -> dec_k s = None.
+Proof.
+  intros Hl Hn. destruct (dec_k s) as [v|] eqn:E; [|reflexivity]. exfalso. apply Hn.
+  destruct (enc_dec_k s v Hl E) as [<- _]. apply enc_k_alphabet.
+Qed.
+
+Lemma enc_k_digits k n : enc_k k n = rev (map b58_char (rdigits k n)).
+Proof. unfold enc_k. rewrite enc_loop_spec. apply app_nil_r. Qed.
+
+Lemma alphabet_table :
+  alphabet = [x31; x32; x33; x34; x35; x36; x37; x38; x39;
+              x41; x42; x43; x44; x45; x46; x47; x48; x4a; x4b; x4c; x4d; x4e; x50; x51; x52; x53; x54; x55; x56;
+              x57; x58; x59; x5a;
+              x61; x62; x63; x64; x65; x66; x67; x68; x69; x6a; x6b; x6d; x6e; x6f; x70; x71; x72; x73; x74; x75;
+              x76; x77; x78; x79; x7a] /\ NoDup alphabet.
+Proof.
+  split; [reflexivity|].
+  assert (Hd : forall l : bytes, (fix nodupb (l : bytes) : bool :=
+                 match l with [] => true | x :: t => negb (existsb (Byte.eqb x) t) && nodupb t end) l = true ->
+               NoDup l).
+  { induction l as [|x t IH]; intros Hb; [constructor|]. apply andb_prop in Hb. destruct Hb as [H1 H2].
+    constructor; [|now apply IH]. intros Hin. apply negb_true_iff in H1.
+    assert (existsb (Byte.eqb x) t = true); [|congruence].
+    apply existsb_exists. exists x. split; [assumption|]. apply (Byte.byte_dec_lb (eq_refl x)). }
+  apply Hd. vm_compute. reflexivity.
+Qed.
+
+(* the recursion equations that determine the encoder: Monero's block-wise fixed-width base 58 *)
+Lemma b58_encode_equations :
+  b58_encode [] = Ok [] /\
+  (forall t, (0 < length t < 8)%nat -> b58_encode t = Ok (enc_k (sz (length t)) (be2n t))) /\
+  (forall a r, length a = 8%nat ->
+     b58_encode (a ++ r) =
+     match b58_encode r with Ok x => Ok (enc_k 11 (be2n a) ++ x) | Err e => Err e | Panic => Panic end).
+Proof. split; [exact b58_encode_nil|split; [exact b58_encode_tail|exact b58_encode_full]]. Qed.
